@@ -16,6 +16,7 @@
 From Coq Require Import NArith List Bool.
 From FF Require Import Lib.Word Gen.Consts_mm_vmm Vmm.Pt Vmm.PtArith Vmm.PtTree Vmm.PtMap Vmm.PtOps Vmm.PtTheorems Vmm.PtInit Vmm.PtPdt Vmm.PtTemp Vmm.PtHist Vmm.PtKernel Vmm.PtRegion.
 From FF Require Import Vmm.Region Vmm.RegionProofs.
+From FF Require Import Gen.Trans_mm_vmm Vmm.PtTrans.
 Import ListNotations.
 Local Open Scope N_scope.
 
@@ -237,3 +238,19 @@ Theorem C04_mrange_pages :
     (forall k, (forall j, (j < n)%nat -> ixs (p0 + N.of_nat j) <> k) -> mrange m p0 f0 flags n k = m k).
 Proof. exact mrange_pages. Qed.
 Print Assumptions C04_mrange_pages.
+
+(** The entry helpers of the model are the Gallina terms that gen/gotrans regenerates from
+    kernel/mm/vmm/pdt.go (pageTableEntry.HasFlags/SetFlags/ClearFlags/Frame/SetFrame) and kernel/mm/page.go
+    (Frame.Address, Page.Address) on every run -- this part of the model is tied to the source by
+    translation, not by testing. *)
+Theorem C04_pte_helpers_are_translation :
+  forall e fl frame, e < two64 -> fl < two64 -> frame < two64 ->
+    go_vmm_pageTableEntry_HasFlags e fl = has_flags e fl /\
+    go_vmm_pageTableEntry_SetFlags e fl = set_flags e fl /\
+    go_vmm_pageTableEntry_ClearFlags e fl = clear_flags e fl /\
+    go_vmm_pageTableEntry_Frame e = pte_frame e /\
+    go_vmm_pageTableEntry_SetFrame e frame = set_frame e frame /\
+    go_mm_Frame_Address frame = frame_addr frame /\
+    go_mm_Page_Address frame = frame_addr frame.
+Proof. exact pte_helpers_are_translation. Qed.
+Print Assumptions C04_pte_helpers_are_translation.
